@@ -272,9 +272,14 @@ func (w *lwalk) stmt(s ast.Stmt) {
 		if st.Cond != nil {
 			// i < int(n)  -> n bound to a previously read fixed-width token
 			ast.Inspect(st.Cond, func(n ast.Node) bool {
-				if be, ok := n.(*ast.BinaryExpr); ok && be.Op == token.LSS {
+				if be, ok := n.(*ast.BinaryExpr); ok && (be.Op == token.LSS || be.Op == token.LEQ) {
 					if obj := w.identObj(be.Y); obj != nil {
 						if idx, ok := w.lenVars[obj]; ok {
+							// the loop runs exactly count times: i := 0; i < n; i++ (or i := 1; i <= n; i++)
+							if !w.countsFrom(st, be) {
+								w.errf(st.Pos(), "index loop over a read count does not run exactly count times (start, comparison or step)")
+								return true
+							}
 							countIdx = idx
 						}
 					}
@@ -375,6 +380,28 @@ func (w *lwalk) stmt(s ast.Stmt) {
 		w.expr(st.Call, "")
 	case *ast.IncDecStmt, *ast.BranchStmt, *ast.EmptyStmt, *ast.GoStmt, *ast.LabeledStmt:
 	}
+}
+
+// countsFrom: the for statement's counter is the left operand of cmp, starts at
+// 0 (for <) or 1 (for <=), and is incremented by one in the post statement.
+func (w *lwalk) countsFrom(st *ast.ForStmt, cmp *ast.BinaryExpr) bool {
+	iv := w.identObj(cmp.X)
+	if iv == nil {
+		return false
+	}
+	inc, ok := st.Post.(*ast.IncDecStmt)
+	if !ok || inc.Tok != token.INC || w.identObj(inc.X) != iv {
+		return false
+	}
+	as, ok := st.Init.(*ast.AssignStmt)
+	if !ok || len(as.Lhs) != 1 || len(as.Rhs) != 1 || w.identObj(as.Lhs[0]) != iv {
+		return false
+	}
+	lit, ok := as.Rhs[0].(*ast.BasicLit)
+	if !ok {
+		return false
+	}
+	return (cmp.Op == token.LSS && lit.Value == "0") || (cmp.Op == token.LEQ && lit.Value == "1")
 }
 
 func (w *lwalk) loop(pos token.Pos, countIdx int, body Layout) {
@@ -483,14 +510,27 @@ func (w *lwalk) expr(e ast.Expr, label string) {
 			case layoutMethods[name] != "":
 				isLen := strings.HasPrefix(name, "Defer")
 				if len(x.Args) == 1 {
-					ast.Inspect(x.Args[0], func(n ast.Node) bool {
-						if c, ok := n.(*ast.CallExpr); ok {
-							if id, ok := c.Fun.(*ast.Ident); ok && id.Name == "len" {
-								isLen = true
+					// the value written is len(X) itself (through conversions and
+					// parentheses only): len(X)-1 or len(X)/2 is not a count of X
+					a := x.Args[0]
+					for {
+						if pe, isP := a.(*ast.ParenExpr); isP {
+							a = pe.X
+							continue
+						}
+						if c, isC := a.(*ast.CallExpr); isC && len(c.Args) == 1 {
+							if tv, isT := w.info.Types[c.Fun]; isT && tv.IsType() {
+								a = c.Args[0]
+								continue
 							}
 						}
-						return true
-					})
+						break
+					}
+					if c, ok := a.(*ast.CallExpr); ok {
+						if id, ok := c.Fun.(*ast.Ident); ok && id.Name == "len" {
+							isLen = true
+						}
+					}
 				}
 				w.out = append(w.out, LNode{Kind: layoutMethods[name], Label: label, lenOf: isLen, deferred: strings.HasPrefix(name, "Defer")})
 			case layoutVarMethods[name]:
